@@ -1,4 +1,6 @@
 """C15 — loading from cached bytecode behaves like compiling: compile-time/run-time mirror in compile_require; Hy-or-Python decision of the importer."""
+CANON = True
+
 import ast
 
 from .. import compq, pyq
